@@ -121,6 +121,20 @@ type sgen struct {
 	q      *qgen
 	r      *rng
 	graphs []string
+	// intent: what the last generated statement means, written down next to the text (never through the
+	// BQL parser): kind, graph names, data triples
+	intent string
+}
+
+func hxList(xs []string) string {
+	if len(xs) == 0 {
+		return "-"
+	}
+	var o []string
+	for _, x := range xs {
+		o = append(o, hx(x))
+	}
+	return strings.Join(o, ",")
 }
 
 func (s *sgen) someGraphs(max int) []string {
@@ -132,18 +146,20 @@ func (s *sgen) someGraphs(max int) []string {
 	return out
 }
 
-func (s *sgen) dataTriples() []string {
+func (s *sgen) dataTriples() ([]string, string) {
 	r := s.r
-	var out []string
+	var out, enc []string
 	for i := 0; i < 1+r.intn(4); i++ {
+		var t *triple.Triple
 		if ids := s.q.g.okIDs(); len(ids) > 0 && r.chance(2, 3) {
-			out = append(out, s.q.g.uni[ids[r.intn(len(ids))]].String())
-			continue
+			t = s.q.g.uni[ids[r.intn(len(ids))]]
+		} else {
+			t, _ = triple.New(qNodes[r.intn(len(qNodes))], qPreds[r.intn(len(qPreds))], qObjs[r.intn(len(qObjs))])
 		}
-		t, _ := triple.New(qNodes[r.intn(len(qNodes))], qPreds[r.intn(len(qPreds))], qObjs[r.intn(len(qObjs))])
 		out = append(out, t.String())
+		enc = append(enc, encNode(t.Subject())+"|"+encPred(t.Predicate())+"|"+encObj(t.Object()))
 	}
-	return out
+	return out, strings.Join(enc, ";")
 }
 
 // template renders a CONSTRUCT / DECONSTRUCT template over the bindings of the WHERE pattern; kinds
@@ -299,23 +315,38 @@ func (s *sgen) someExisting(max int) []string {
 
 func (s *sgen) statement() string {
 	r := s.r
+	s.intent = ""
 	switch x := r.intn(20); {
 	case x < 2:
-		return "create graph " + strings.Join(s.someGraphs(2), ", ") + ";"
+		gs := s.someGraphs(2)
+		s.intent = " xty=3 xgn=" + hxList(gs)
+		return "create graph " + strings.Join(gs, ", ") + ";"
 	case x < 3:
-		return "drop graph " + strings.Join(s.someGraphs(2), ", ") + ";"
+		gs := s.someGraphs(2)
+		s.intent = " xty=4 xgn=" + hxList(gs)
+		return "drop graph " + strings.Join(gs, ", ") + ";"
 	case x < 8:
-		return "insert data into " + strings.Join(s.someExisting(3), ", ") + " { " + strings.Join(s.dataTriples(), " . ") + " };"
+		gs := s.someExisting(3)
+		ts, enc := s.dataTriples()
+		s.intent = " xty=1 xog=" + hxList(gs) + " xdata=" + enc
+		return "insert data into " + strings.Join(gs, ", ") + " { " + strings.Join(ts, " . ") + " };"
 	case x < 11:
-		return "delete data from " + strings.Join(s.someExisting(2), ", ") + " { " + strings.Join(s.dataTriples(), " . ") + " };"
+		gs := s.someExisting(2)
+		ts, enc := s.dataTriples()
+		s.intent = " xty=2 xg=" + hxList(gs) + " xdata=" + enc
+		return "delete data from " + strings.Join(gs, ", ") + " { " + strings.Join(ts, " . ") + " };"
 	case x < 17:
 		w, bs := s.where()
-		return fmt.Sprintf("construct { %s } into %s from %s where { %s };", s.template(bs, true), strings.Join(s.someExisting(2), ", "),
-			strings.Join(s.someExisting(2), ", "), w)
+		og, ig := s.someExisting(2), s.someExisting(2)
+		s.intent = " xty=5 xog=" + hxList(og) + " xg=" + hxList(ig)
+		return fmt.Sprintf("construct { %s } into %s from %s where { %s };", s.template(bs, true), strings.Join(og, ", "),
+			strings.Join(ig, ", "), w)
 	default:
 		w, bs := s.where()
-		return fmt.Sprintf("deconstruct { %s } in %s from %s where { %s };", s.template(bs, false), strings.Join(s.someExisting(2), ", "),
-			strings.Join(s.someExisting(2), ", "), w)
+		og, ig := s.someExisting(2), s.someExisting(2)
+		s.intent = " xty=6 xog=" + hxList(og) + " xg=" + hxList(ig)
+		return fmt.Sprintf("deconstruct { %s } in %s from %s where { %s };", s.template(bs, false), strings.Join(og, ", "),
+			strings.Join(ig, ", "), w)
 	}
 }
 
@@ -396,7 +427,7 @@ func cmdStmts(args []string) error {
 				enc = encDataStatement(st)
 				kind = st.Type().String()
 			}
-			g.emit(fmt.Sprintf("X cfg=%s text=%s %s", cfg, hx(text), enc), res.cls)
+			g.emit(fmt.Sprintf("X cfg=%s text=%s %s%s", cfg, hx(text), enc, s.intent), res.cls)
 			hist[kind+"/"+res.cls]++
 			if os.Getenv("VERIF_DEBUG") != "" && res.cls != "ok" {
 				fmt.Fprintf(os.Stderr, "%s | %s | %s\n", res.cls, res.text, text)
